@@ -574,8 +574,30 @@ theorem exec_at_starts_after_prologue (g : V) (args : List V) {s s' : State} (h0
     (h : exec (prologue g args) s = (.ok (), s')) : Good s' :=
   good_prologue g args h0 h
 
-/-- what `Props/C05.compile_wf` (`WFFn`) and `TryStrict` say of a compiled function is `WfCode` of its code -/
-theorem wfCode_of_wfFn {cs : Array Const} {nf : Nat} {g : CFn} (h : WFFn cs nf g) (ht : TryStrict g) :
+theorem walk_le_size {a : Array UInt8} {i j : Nat} (h : Walk a i j) (hi : i ≤ a.size) : j ≤ a.size := by
+  induction h with
+  | refl => exact hi
+  | step op h1 h2 h3 h4 ih => exact ih h3
+
+/-- no operand of a SETUPTRY is the end-of-stream offset.  (`Props/C05.compile_wf` proves every such
+    operand is an instruction start OR the end of the stream; that it is never the end — after a try
+    statement the compiler always emits THROW 0, the catch / finally positions are those of emitted
+    SETUPCATCH / SETUPFINALLY instructions — is the open item `TryStrict` of C05, which implies this.) -/
+def TryNotEnd (f : CFn) : Prop :=
+  ∀ p op, Bd f.insts p → f.insts[p]? = some op → op.toNat = Compile.OpSetupTry →
+    readBE f.insts (p + 1) 4 ≠ f.insts.size ∧ readBE f.insts (p + 5) 4 ≠ f.insts.size
+
+theorem tryNotEnd_of_tryStrict {f : CFn} (h : TryStrict f) : TryNotEnd f := by
+  intro p op hbd hop hc
+  obtain ⟨t1, t2⟩ := h p op hbd hop hc
+  have hp := hbd.2
+  refine ⟨?_, by have := t2.2; omega⟩
+  rcases t1 with t1 | t1
+  · omega
+  · have := t1.2; omega
+
+/-- what `Props/C05.compile_wf` (`WFFn`) and `TryNotEnd` say of a compiled function is `WfCode` of its code -/
+theorem wfCode_of_wfFn {cs : Array Const} {nf : Nat} {g : CFn} (h : WFFn cs nf g) (ht : TryNotEnd g) :
     WfCode (Eval.codeOfCFn g) := by
   refine ⟨h.decodes, ?_, ?_, ?_⟩
   · obtain ⟨q, b, h1, h2, h3, h4⟩ := h.ret
@@ -584,19 +606,19 @@ theorem wfCode_of_wfFn {cs : Array Const} {nf : Nat} {g : CFn} (h : WFFn cs nf g
   · intro p op hbd hop hc
     exact h.jump p op hbd hop hc
   · intro p op hbd hop hc
-    obtain ⟨t1, t2⟩ := ht p op hbd hop hc
-    refine ⟨fun h0 => ?_, fun _ => t2⟩
-    rcases t1 with t1 | t1
-    · have : 0 < readBE g.insts (p + 1) 4 := h0
-      omega
-    · exact t1
+    obtain ⟨w1, w2⟩ := h.try_ p op hbd hop hc
+    obtain ⟨n1, n2⟩ := ht p op hbd hop hc
+    have l1 := walk_le_size w1 (Nat.zero_le _)
+    have l2 := walk_le_size w2 (Nat.zero_le _)
+    exact ⟨fun _ => ⟨w1, by show readBE g.insts (p + 1) 4 < g.insts.size; omega⟩,
+      fun _ => ⟨w2, by show readBE g.insts (p + 5) 4 < g.insts.size; omega⟩⟩
 
-/-- the hypothesis on compiler output that is not yet a theorem of C05: the operands of every
-    SETUPTRY are instruction starts strictly inside the stream (`Props/C05.TryStrict`; proved there is
-    "instruction start or end of stream"; checked on real bytecode by the structural scan of the
-    `compilefuzz` stream) -/
+/-- the hypothesis on compiler output that is not yet a theorem of C05: no operand of a SETUPTRY — in
+    main or in a function constant — is the end-of-stream offset (`TryNotEnd`; implied by
+    `Props/C05.TryStrict`, `tryNotEnd_of_tryStrict`; checked on real bytecode by the structural scan
+    of the `compilefuzz` stream) -/
 def TryTargetsStrict (bc : Compile.Bytecode) : Prop :=
-  TryStrict bc.main ∧ ∀ g, Const.fn g ∈ bc.constants.toList → TryStrict g
+  TryNotEnd bc.main ∧ ∀ g, Const.fn g ∈ bc.constants.toList → TryNotEnd g
 
 /-- every function of well-formed bytecode has well-formed code -/
 theorem fnList_wfCode (bc : Compile.Bytecode) (hwf : WF bc) (ht : TryTargetsStrict bc) :
@@ -623,8 +645,8 @@ theorem exec_at_starts_compiled (builtins : List (String × Nat)) (hbi : Builtin
   intro s hb _
   exact UgoVerif.VM.Cfi.exec_at_starts F hg s hb
 
-/-- a function without SETUPTRY satisfies `TryStrict` -/
-theorem tryStrict_of_noTry (f : CFn) (h : ∀ b ∈ f.insts.toList, b.toNat ≠ Compile.OpSetupTry) : TryStrict f := by
+/-- a function without SETUPTRY satisfies `TryNotEnd` -/
+theorem tryNotEnd_of_noTry (f : CFn) (h : ∀ b ∈ f.insts.toList, b.toNat ≠ Compile.OpSetupTry) : TryNotEnd f := by
   intro p op _ hop he
   have hlt : p < f.insts.size := by
     rcases Nat.lt_or_ge p f.insts.size with hl | hl
@@ -651,7 +673,7 @@ theorem exec_ok_of_isOk {m : M Unit} {s : State}
 theorem demo_run : BuiltinsOK [] ∧ Ast.okSs demoFile = true ∧ Ast.labSs (fun p => p / 20) demoFile = true ∧
     ∃ bc, compileFile [] [] demoFile = .ok bc ∧ TryTargetsStrict bc ∧
       ∃ s1, exec (prologue .nil []) (loaded bc) = (.ok (), s1) := by
-  refine ⟨by decide, by decide, by decide, _, rfl, ⟨tryStrict_of_noTry _ (by decide), ?_⟩, _,
+  refine ⟨by decide, by decide, by decide, _, rfl, ⟨tryNotEnd_of_noTry _ (by decide), ?_⟩, _,
     exec_ok_of_isOk (by decide +kernel)⟩
   intro g hg
   simp [initState] at hg
